@@ -39,6 +39,7 @@ type Restrict struct {
 	SmallValues bool // keep objects small (used by enumeration checks)
 	NoImages    bool // no pre-encoded DCT / JBIG2 / CCITTFax streams
 	Bulk        bool // now and then a program writes thousands of small objects
+	WrongLength bool // now and then OpenStream gets a /Length that disagrees with the data
 }
 
 // Config is the drawn configuration.
@@ -93,11 +94,14 @@ type Result struct {
 	PagesRef  pdf.Reference
 	Err       error  // first error returned by a Writer call
 	ErrOp     string // the operation that returned it
-	Closed    bool
-	OpNames   []string
-	args      []argCheck
-	GetDiffs  []string // Writer.Get results that differed from the model
-	Probes    map[string]int
+	// ExpectedReject: the error is the required answer to an invalid request
+	// (a caller-supplied /Length that disagrees with the data)
+	ExpectedReject bool
+	Closed         bool
+	OpNames        []string
+	args           []argCheck
+	GetDiffs       []string // Writer.Get results that differed from the model
+	Probes         map[string]int
 }
 
 // MetaTitle is the Dublin Core title of the document-level XMP metadata.
@@ -747,6 +751,7 @@ func (x *exec) opOpenStream() {
 	ref := x.takeStreamRef(lbl)
 	dict := x.streamDict(lbl)
 	filters, names, rowBytes := drawFilters(t, lbl, x.cfg.Version)
+	wrongLen := false
 	body := gen.Body(t, lbl+".body", x.maxBody(), x.r.SafeText)
 	if rowBytes > 0 {
 		body = body[:len(body)/rowBytes*rowBytes]
@@ -754,6 +759,15 @@ func (x *exec) opOpenStream() {
 	if len(filters) == 0 && !x.cfg.Encrypted() && t.Bool(lbl+".givelen", 1, 3) {
 		dict["Length"] = pdf.Integer(len(body))
 		x.res.Probes["caller supplied /Length"]++
+		if x.r.WrongLength && t.Bool(lbl+".wronglen", 1, 4) {
+			// the Writer has to refuse a /Length that disagrees with the data
+			// (or correct it): it must not end up in the file
+			d := tape.Pick(t, lbl+".wrongby", 1, -1, 7, 100, -100, 1000)
+			if len(body)+d >= 0 {
+				dict["Length"] = pdf.Integer(len(body) + d)
+				wrongLen = true
+			}
+		}
 	}
 	snapDict := gen.Clone(dict).(pdf.Dict)
 	x.res.args = append(x.res.args, argCheck{dict, gen.Clone(dict), "streamdict"})
@@ -822,7 +836,15 @@ func (x *exec) opOpenStream() {
 		defs = append(defs, deferred{dref, snap})
 		x.res.Probes["Put while stream open"]++
 	}
-	if x.fail("stream.Close", ws.Close()) {
+	if wrongLen {
+		if err := ws.Close(); err != nil {
+			x.res.Probes["wrong caller-supplied /Length refused"]++
+			x.res.Err, x.res.ErrOp, x.res.ExpectedReject = err, "stream.Close (wrong /Length)", true
+			return
+		}
+		// accepted: then the file must carry the true length (C03 looks)
+		x.res.Probes["wrong caller-supplied /Length accepted"]++
+	} else if x.fail("stream.Close", ws.Close()) {
 		return
 	}
 	delete(snapDict, "Length")
